@@ -14,6 +14,13 @@ def jflags (j : Json) : Flags :=
     keepGoing := (f.getObjValAs? Nat "keep_going").toOption.getD 1,
     jobs := (f.getObjValAs? Nat "jobs").toOption, verbose := jnat f "verbose" }
 
+/-- `ninja_rc`: a number (exit code) or the string "kill" (killed by a signal: no exit code) -/
+def jninjaRc (j : Json) : Nat :=
+  match j.getObjVal? "ninja_rc" with
+  | .ok (.str "kill") => ninjaVerdict none
+  | .ok v => match v.getInt? with | .ok i => ninjaVerdict (some i) | _ => 0
+  | _ => 0
+
 def containsSub (s pat : String) : Bool := (s.splitOn pat).length > 1
 
 def handleRun (j : Json) : Json :=
@@ -22,7 +29,7 @@ def handleRun (j : Json) : Json :=
   | none => Json.mkObj [("error", "bad command line")]
   | some args =>
     if jstr j "subcommand" == "clean" then
-      let (sp, rc) := runClean st args.mode (jbool j "unused") (jflags j).verbose (jnat j "ninja_rc")
+      let (sp, rc) := runClean st args.mode (jbool j "unused") (jflags j).verbose (jninjaRc j)
       Json.mkObj [("ok", Json.mkObj [("spawns", Json.arr (sp.map spawnJ).toArray), ("rc", rc)])]
     else
     -- the arguments the build files were generated with (a cache hit serves a wider earlier run)
@@ -46,6 +53,6 @@ def handleRun (j : Json) : Json :=
           | some t => some (t, jstrs j "task_args")
           | none => none
         let markers := jstrs j "fail_markers"
-        let (sp, rc) := runBuild st args (jflags j) r.builds task (jnat j "ninja_rc")
+        let (sp, rc) := runBuild st args (jflags j) r.builds task (jninjaRc j)
           (fun cmd => markers.any (fun m => containsSub cmd m))
         Json.mkObj [("ok", Json.mkObj [("spawns", Json.arr (sp.map spawnJ).toArray), ("rc", rc)])]
